@@ -333,3 +333,52 @@ MANIFEST_TEXT["C12"] = {
     "note": "Trusted: Lean kernel, extractor, harness, Go standard library facts. O-3: a leaf issued by the Processor CA is fetched for with ca=processor and then rejected by the fixed intermediate CN; the property only fixes the request. Unchanged tree: violated (F9) until the defaulted Now is no longer stored in the caller's options.",
     "technique": "Lean 4 proof over an executable model with oracle facts + differential correspondence on generated attestation worlds and option histories",
 }
+
+# ---- verification group, part B (C03 C04 C07)
+PROPS["C03"] = {
+    "project": strip_cls,
+    "rule": "verify.TdxQuote with GetCollateral (CheckRevocations for 1/6 of the cases) on generated worlds = honest world (own PRNG per case: PCG(seed, case index)) + ONE fault on the TCB Info or on the QE Identity response, both responses alike: single-bit mutants of the signed member (quick: every 8th bit of a 600-byte prefix; thorough: every bit of the prefix + 800 sampled bits behind it), of the signature (every 8th / every bit of the 512) and of the escaped issuer-chain header value (300 / 8000 evenly spread bits); 207 structured faults x 2 responses x 2 (quick) / 20 (thorough) fresh worlds: re-signing with a foreign / the PCK leaf's / the intermediate's / the root's / the attestation key, role confusion (intermediate CA, root or PCK leaf certificate as signer), look-alike PKI (signer and root; signer under the genuine root; genuine signer under the look-alike root; issuer name right but foreign signature), signer with 6 wrong CNs / other organisation, signer issued by the intermediate (root, intermediate or three blocks in the header), header root not self-signed / wrong CN although listed / second listed root (control) / genuine but not listed, member re-encoded without re-signing (whitespace, trailing space, key order, \\u escape), signature over the whole body / other bytes / the other document, 8 malformed signature strings, swapped halves, wrong id / version / version 256+v / empty levels / documents swapped (all signed), member missing / signature missing / order / unrelated extra members, genuine signature under a long-s key, genuine document only under an upper-case key, body not JSON / array / null / {} / empty / number / trailing garbage / fetch failure, header absent / duplicated / empty / bad escape / one block / three blocks / swapped order / wrong PEM type / garbage DER / trailing bytes / unescaped / double escaped / leading text; unsigned extra or duplicate members: document member x spelling {exact, UPPER, MiXed, lower, UPPER with nested keys in long-s (U+017F) / Kelvin (U+212A) spellings} x position {before, between, after the genuine member} x alternative {complete and better (signed one OutOfDate), complete and worse, partial: only tcbLevels, only tdxModuleIdentities (QE: only mrsigner), only nextUpdate}, a signed document that omits a member with an unsigned exact-spelling duplicate before it, signature member x spelling {exact, UPPER, MiXed, long-s, long-s upper} x position x value {zeros, random, number, null, empty}. Quick 2756 worlds, thorough 36504. Every world is also put to the Lean model (verdict, URL list, Options.Now). A case is non-trivial when the quote reaches the collateral stage (always); distinct = distinct (fault, options, error class, line hash mod 64)",
+    "trusted_base": ["crypto/x509, crypto/ecdsa, encoding/pem, net/url, encoding/json of the Go standard library: used by the oracle directly on the bytes on the wire (issuer-chain header, body) and, through the world's fact emission, as the model's oracle facts; the model abstracts x509.Verify as a path search over at most one intermediate",
+                     "the oracle's own document decoder (exact key spellings, generic JSON values) and its own reading of the C04 / C07 decision (intelTcb / intelQe in cv_c04.go / cv_c07.go)",
+                     "the line protocol carries names and URLs as UTF-8: a world in which a bit flip produced a certificate with a non-UTF-8 CRL distribution point or name is decided by the oracle alone (tag harness-only:non-utf8-string, below 1 % of the header-bit cases)"],
+    "assumptions": ["a response whose issuer-chain header has more than one value has no unique issuer chain and must be rejected (reading of 'any alteration of ... the issuer chain')",
+                    "the signature string may sit under any key spelling and the signed member under any key: what counts is that the exact raw bytes of the member whose values are used verify under the header's signing certificate (the code is stricter: member and signature are looked up under their exact / case-folded names)",
+                    "nextUpdate of the signed document is one of the values that drive the verdict (it is compared with Options.Now)"],
+}
+
+PROPS["C04"] = {
+    "project": strip_cls,
+    "rule": "verify.TdxQuote with GetCollateral, then verify.SupportedTcbLevelsFromCollateral on the same options value (one V.verify and one V.levels line per world), on generated worlds whose TCB Info is built from an abstract description: G0 two canonical worlds; G1 one level x SGX comparison {all equal, all strictly below, mixed, above at index 0 / 1 / 2 / 15} x PCE SVN {equal, below, above} x TDX comparison (same 7) x TEE_TCB_SVN[1] in {0,1} (x 7 statuses in thorough); G2 two levels: first level {matches with equality, matches mixed, SGX above at a random index / at 0, PCE above, TDX above at a random index >= 2 / at 0 / at 1 / at 2} x 7 statuses x second level {matches strictly below, matches mixed, no match} x 7 statuses x TEE_TCB_SVN[1] (quick: a pseudo-random third; thorough: all, with an UpToDate and an OutOfDate module level); G3 module identity {absent, no levels, one level below / at / above TEE_TCB_SVN[0] x 7 statuses, two levels x 9 position pairs x 4 (thorough 49) status pairs, duplicated identity with opposite statuses} x TEE_TCB_SVN[1] x platform status {UpToDate, OutOfDate} (thorough: all 7); G4 identity fields {FMSPC bit, FMSPC letter case (must not matter), PCE-ID bit, MRSIGNERSEAM bit, masked SEAMATTRIBUTES bit, bits outside the mask (must not matter), identity value bit outside the mask, mask length 7 / 9 / 0, value length 7, value not hex} x TEE_TCB_SVN[1] x 3 (30) worlds; S document vectors of length 0 / 15 / 17 / 32, SVN 256 / -1 / PCE SVN 65536 in the document, QE list without match, no match on both sides, TDX components 0 and 1 above the platform's, controls; R 1900 (22000) random worlds with 1-6 levels, random SVN vectors around the platform's (extremes 0 / 255), 0-3 module identities with 0-3 levels, TEE_TCB_SVN[1] in 0..3, identity mismatch in 1/10. G2b (both tiers, complete) first level matches with equality in the SGX / PCE / TDX comparison and carries one of the 6 other statuses, second level strictly below everywhere and UpToDate. Quick 3573 worlds (7146 lines), thorough 37858 worlds (75716 lines). A case is non-trivial always (every world reaches the TCB evaluation or the collateral decode); distinct = distinct abstract world (grid) / (fault, options, error class, line hash) otherwise",
+    "trusted_base": ["the oracle is an independent reading of the statement (intelTcb, platformLevelMatches in cv_c04.go) on the GENERATOR's description of the document and of the platform (PCK extension values, TD quote body), not on anything decoded by the code or by the world's fact emission",
+                     "encoding/json and crypto/x509 enter the model as oracle facts (document decode, PCK extension tree)"],
+    "assumptions": ["a TCB level whose component vector does not have 16 entries matches no platform",
+                    "the module identity is looked up under the name TDX_<two lower-case hex digits of TEE_TCB_SVN[1]>; the first identity of that name counts",
+                    "'no level matches' for the levels API covers the platform level, the TDX module level when TEE_TCB_SVN[1] != 0 and the QE Identity level (the API reports both)"],
+}
+
+PROPS["C07"] = {
+    "project": strip_cls,
+    "rule": "verify.TdxQuote with GetCollateral on generated worlds = honest world + ONE fault on the QE side (report fields are set before the world is built, so the QE report is re-signed by the PCK leaf key and only the identity comparison can refuse): MISCSELECT / ATTRIBUTES masks {all ones, all zero, single bit, random}^2 with matching values; per mask kind: report bit outside the mask (must not matter), report bit inside the mask, identity value bit outside the mask (can never match) for both fields; value / mask lengths {0,3,4,5}^2 (MISCSELECT), {15,16,17}^2 (ATTRIBUTES), MRSIGNER length 0/31/33/48; MRSIGNER one bit off (every 8th / every bit of the identity's, one of the report's); ISVPRODID identity +-1, report +-1 / far above, swapped with ISVSVN, 65536; level lists of length 0-5 in descending and ascending order with the report's ISVSVN above / at every level and below all, the selected level carrying each of the 7 statuses and every other level the opposite; unknown status strings in the selected / another level; odd-length, non-hex, upper-case and 0x-prefixed hex strings in each of the 5 hex members; 616 (840) structured faults x 1 (12) + 900 (16000) random combinations. Quick 1516 worlds, thorough 26080. A case is non-trivial always; distinct = distinct (fault, options, error class, line hash mod 64)",
+    "trusted_base": ["the oracle is an independent reading of the statement (intelQe in cv_c07.go) on the generator's description of the QE Identity and of the QE report",
+                     "encoding/json (document decode incl. hex and status strings) enters the model as oracle facts"],
+    "assumptions": ["'equal the identity's values once the identity's masks are applied' is read as (report AND mask) = identity value, with mask and value of exactly the report field's length (4 / 16 bytes)",
+                    "an unknown status string in a level that is not selected makes the code refuse the whole document (decode error); the oracle only requires the selected level to be UpToDate, so such worlds count as 'statement allows acceptance, rejected'"],
+}
+
+MANIFEST_TEXT["C03"] = {
+    "text": "Lean theorems (TdxProofs/Props/C03.lean) over the executable pipeline model Tdx.Verify.tdxQuote under Fixes.all, for every world of oracle facts: acceptance with collateral implies that the TCB Info / QE Identity values used are the decode of the exact raw member, that this member verifies under the signature string with the header's signing certificate, that signer and root carry the expected names, the root is self-signed, the signer is issued by it and anchored in the effective roots, and id / version / non-empty levels; unsigned members cannot replace the signed values; F6 witness for the pinned behaviour. Tied to verify.go by running the real verify.TdxQuote on generated worlds (bit mutants of member, signature and header; structured signing / PKI / body / header faults; unsigned duplicate members under exact, case-folded, U+017F and U+212A spellings before and after the genuine member) with every verdict compared with the model's, plus an independent standard-library oracle on the bytes on the wire that re-decides C04 / C07 from the signed member alone.",
+    "note": "Trusted: Lean kernel (axioms propext/Classical.choice/Quot.sound at most), extractor, harness. Parameters (facts, not modelled): ECDSA, X.509 parsing and path building, PEM, URL unescaping, JSON (member order, exact-key map lookup, case / Unicode folding and merging of struct decoding). A response with more than one issuer-chain header value is read as having no unique issuer chain. Worlds whose mutated certificates carry non-UTF-8 strings are decided by the oracle alone.",
+    "technique": "Lean 4 proof over an executable model of the pipeline + differential correspondence on generated worlds with an independent oracle",
+}
+
+MANIFEST_TEXT["C04"] = {
+    "text": "Lean theorems (TdxProofs/Props/C04.lean) over Tdx.Verify.tdBodyCheck / tcbStatusCheck / supportedLevelsCall under Fixes.all for level lists of any length: acceptance with collateral implies FMSPC, PCE-ID, MRSIGNERSEAM and masked SEAMATTRIBUTES match, the first level in listed order whose SGX components, PCE SVN and TDX components (from index 2 when TEE_TCB_SVN[1] != 0) are not above the platform's is UpToDate and, when TEE_TCB_SVN[1] != 0, the first level of identity TDX_<version> with isvsvn <= TEE_TCB_SVN[0] is UpToDate too; no match is an error of verification and of the levels API; F4 / F5 witnesses for the pinned behaviour. Tied to verify.go by running verify.TdxQuote and then verify.SupportedTcbLevelsFromCollateral on the same options over an exhaustive small-scope grid of abstract worlds (comparison outcome per vector and index class x statuses x module identity shapes x identity-field mismatches) and random worlds, each compared with the model (verdict, URLs, Options.Now, reported levels) and judged by an independent implementation of the statement on the generator's data.",
+    "note": "Trusted: Lean kernel (axioms propext/Classical.choice/Quot.sound at most), extractor, harness. JSON decoding of the document and the PCK extension tree are facts. A level vector of another length than 16 matches nothing; the module identity is the first one named TDX_<2 lower-case hex digits>.",
+    "technique": "Lean 4 proof over an executable model + differential correspondence (exhaustive small-scope grid + random) with an independent oracle",
+}
+
+MANIFEST_TEXT["C07"] = {
+    "text": "Lean theorems (TdxProofs/Props/C07.lean) over Tdx.Verify.qeReportCheck / qeStatusCheck for all mask contents and level lists of any length: acceptance with collateral implies MRSIGNER and ISVPRODID equal the identity's, (MISCSELECT AND mask) and (ATTRIBUTES AND mask) equal the identity's values with 4- and 16-byte masks, and the first level in listed order with isvsvn <= the report's ISVSVN is UpToDate; no match is an error. Tied to verify.go by running verify.TdxQuote on generated worlds with re-signed QE reports (mask kinds, bits inside / outside the masks on either side, field lengths, MRSIGNER bits, ISVPRODID neighbours and the ISVSVN swap, level lists of length 0-5 in both orders with every status, undecodable status / hex strings), each compared with the model and judged by an independent predicate on the generator's data.",
+    "note": "Trusted: Lean kernel (axioms propext/Classical.choice/Quot.sound at most), extractor, harness. JSON decoding (hex strings, the seven status strings) is a fact supplied by the harness's mirror structs.",
+    "technique": "Lean 4 proof over an executable model + differential correspondence with an independent oracle",
+}
